@@ -7,7 +7,7 @@ import kanirun
 CBMC_ARGS = ["--unwindset", kanirun.SWAP_LOOP + ":8"]
 KANI_ARGS = ["--no-memory-safety-checks"]
 STUBS = ["rs", "tracing", "clock"]
-FUNCS = ["client::pool::idle::IdleConnections::{push,pop,len,is_empty,clear}", "client::pool::idle::Idle::new", "client::pool::PoolInner::pop",
+FUNCS = ["(mirsym) client::pool::PoolInner::pop, <WhenReady as Drop>::drop, <Pooled as Drop>::drop", "client::pool::idle::IdleConnections::{push,pop,len,is_empty,clear}", "client::pool::idle::Idle::new", "client::pool::PoolInner::pop",
          "client::pool::WhenReady::{poll,drop}", "client::pool::Pooled::drop"]
 BOUNDS = ("idle lists of 0..3 entries (shape concrete per instance); push instants symbolic non-decreasing (secs<=100, nanos<1e9), pop instant symbolic later (secs<=200); "
           "each entry open/closed symbolic; idle_timeout None or Some(any (secs<=50,nanos<1e9)) including zero; unwind 5")
@@ -35,3 +35,10 @@ def harnesses(tier, seed):
                             tier=q if wb == 0 else "thorough",
                             desc={"idle_entries_origin_A": ni, "idle_entries_origin_B": wb, "idle_timeout": "Some(symbolic)" if to else "None"}, funcs=FUNCS[:3]))
     return hs
+
+
+def extra(tier, seed, log):
+    import mirrun
+    res, table = mirrun.run("C05", tier, seed, log)
+    extra.model_table = table
+    return res
